@@ -4,5 +4,6 @@ CONSTANTS
   NSources = 3
   CodecLists <- Lists3
   SubBox = 2
+  Nested = 0
 INVARIANT InvStreamAlgorithm
 CHECK_DEADLOCK FALSE
